@@ -525,7 +525,11 @@ func (s *genState) randomTx() {
 				break
 			}
 		}
-		s.g.Emit("vote %d %d %s %s", k, lock, strings.Join(vs, ","), bad)
+		if r.Chance(25) { // several contents in one payload: duplicates of the DposV2 type must be refused
+			s.g.Emit("vote %d %d %s %s %s", k, lock, strings.Join(vs, ","), bad, []string{"DP", "PD", "DD", "DPD", "PDD", "DPPD"}[r.Intn(6)])
+		} else {
+			s.g.Emit("vote %d %d %s %s", k, lock, strings.Join(vs, ","), bad)
+		}
 	case 12:
 		k := r.Intn(5)
 		if vs := s.liveVotes(k); len(vs) > 0 && r.Chance(70) {
